@@ -51,14 +51,14 @@ type inode struct {
 
 // WriteEvent is passed to the OnWrite hook at the three gates of a write.
 type WriteEvent struct {
-	FS    *FS
-	Path  string
-	Off   int64
-	Data  []byte
-	Sync  bool
-	Phase string // "begin", "mid", "end"
-	Failed bool  // set at "end" when the write failed (injected fault)
-	N     int    // ordinal of this write on this FS (1-based)
+	FS     *FS
+	Path   string
+	Off    int64
+	Data   []byte
+	Sync   bool
+	Phase  string // "begin", "mid", "end"
+	Failed bool   // set at "end" when the write failed (injected fault)
+	N      int    // ordinal of this write on this FS (1-based)
 }
 
 // Fault is what a hook can ask for at the "begin" gate.
